@@ -84,6 +84,11 @@ def generate(rng, tier):
     # black-box: the DESIGN.md probe (3000 x 1 KB lines into a reader taking 4 KiB per 5 ms)
     for tr in (["serverless", "server"] if tier == "quick" else ["serverless", "server"] * 4):
         cases.append({"blackbox": True, "transport": tr, "nlines": 3000, "linelen": 1000, "chunk": 4096, "sleep_ms": rng.choice([5, 8])})
+    # a consumer that needs longer than the server's 5 s acknowledgement timeout for what is already in flight (SSH window)
+    cases.append({"blackbox": True, "transport": "server", "nlines": 1500, "linelen": 1000, "chunk": 4096, "sleep_ms": 40})
+    # a consumer that reads nothing for 7 s while about one stdout pipe (64 KiB) plus a line or two is outstanding
+    for nl in ([63, 64, 65, 66, 67] if tier == "quick" else range(58, 72)):
+        cases.append({"blackbox": True, "transport": "serverless", "nlines": nl, "linelen": 1024, "chunk": 65536, "sleep_ms": 0, "first_stall_s": 7})
     return cases
 
 
@@ -93,7 +98,7 @@ REC = re.compile(rb"^REMOTE\|([^|]*)\|\s*(\d+)\|(\d+)\|([^|]*)\|(.*)$", re.S)
 
 
 def _blackbox(env, c, server):
-    path = os.path.join(env.dir, "bb_%s.txt" % c["transport"])
+    path = os.path.join(env.dir, "bb_%s_%d_%d.txt" % (c["transport"], c["nlines"], c["linelen"]))
     with open(path, "w") as f:
         for i in range(c["nlines"]):
             f.write("%07d %s\n" % (i, "y" * (c["linelen"] - 9)))
@@ -103,16 +108,29 @@ def _blackbox(env, c, server):
     p = subprocess.Popen(cmd, stdin=subprocess.DEVNULL, stdout=subprocess.PIPE, stderr=subprocess.PIPE, env=env.client_env(), cwd=env.dir)
     got = bytearray()
     t0 = time.time()
+    # a client that never ends (or stops sending without ending) must not block the check: a watchdog kills it
+    import threading
+    timed_out = {"flag": False}
+
+    def watchdog():
+        while p.poll() is None:
+            if time.time() - t0 > 60 + c.get("first_stall_s", 0):
+                timed_out["flag"] = True
+                p.kill()
+                return
+            time.sleep(0.5)
+    threading.Thread(target=watchdog, daemon=True).start()
+    if c.get("first_stall_s"):
+        time.sleep(c["first_stall_s"])       # the consumer reads nothing at first (a pager, a stopped terminal)
     while True:
         b = p.stdout.read(c["chunk"])
         if not b:
             break
         got += b
         time.sleep(c["sleep_ms"] / 1000.0)
-        if time.time() - t0 > 120:
-            p.kill()
-            break
     rc = p.wait()
+    if timed_out["flag"]:
+        rc = -9
     nums = [int(l[:7]) for l in bytes(got).split(b"\n") if len(l) >= 7 and l[:7].isdigit()]
     return {"blackbox": True, "rc": rc, "nums_ok": nums == list(range(c["nlines"])), "nlines": len(nums),
             "first_missing": next((i for i, (a, b) in enumerate(zip(nums, range(c["nlines"]))) if a != b), len(nums)),
